@@ -8,11 +8,13 @@ import (
 	"crypto/tls"
 	"crypto/x509"
 	"crypto/x509/pkix"
+	"encoding/pem"
 	"fmt"
 	"io"
 	"math/big"
 	"net"
 	"os"
+	"path/filepath"
 	"runtime"
 	"strconv"
 	"strings"
@@ -30,9 +32,12 @@ import (
 // ---------------------------------------------------------------------------------------------------
 
 type pki struct {
-	caPool     *x509.CertPool
-	serverCert tls.Certificate
-	client     map[string]tls.Certificate // good, wrongcn, expired, foreign, selfsigned, intercn
+	certFile, keyFile, caFile string
+	caDER, foreignDER         []byte
+	filesOnce                 sync.Once
+	caPool                    *x509.CertPool
+	serverCert                tls.Certificate
+	client                    map[string]tls.Certificate // good, wrongcn, expired, foreign, selfsigned, intercn
 }
 
 var (
@@ -98,9 +103,36 @@ func getPKI() *pki {
 		ssT := leafTmpl("client", ok)
 		ssDER := mkCert(ssT, ssT, &ss.PublicKey, ss)
 		p.client["selfsigned"] = tls.Certificate{Certificate: [][]byte{ssDER}, PrivateKey: ss}
+		p.caDER, p.foreignDER = caDER, foreignDER
 		thePKI = p
 	})
 	return thePKI
+}
+
+// ensureFiles writes the PKI as PEM files (once per process), for servers configured through certificate files, and a
+// "host trust store" that contains the foreign CA (as a host's store contains the public CAs): the server must trust
+// the configured CA only, whatever the host trusts.
+func (p *pki) ensureFiles() {
+	p.filesOnce.Do(func() {
+		dir := os.Getenv("VH_RUN_DIR")
+		if dir == "" {
+			dir = os.TempDir()
+		}
+		dir, err := os.MkdirTemp(dir, "vh-pki-")
+		if err != nil {
+			return
+		}
+		pemOf := func(typ string, der []byte) []byte { return pem.EncodeToMemory(&pem.Block{Type: typ, Bytes: der}) }
+		keyDER, _ := x509.MarshalECPrivateKey(p.serverCert.PrivateKey.(*ecdsa.PrivateKey))
+		p.certFile, p.keyFile, p.caFile = filepath.Join(dir, "server.crt"), filepath.Join(dir, "server.key"), filepath.Join(dir, "ca.crt")
+		os.WriteFile(p.certFile, pemOf("CERTIFICATE", p.serverCert.Certificate[0]), 0o600)
+		os.WriteFile(p.keyFile, pemOf("EC PRIVATE KEY", keyDER), 0o600)
+		os.WriteFile(p.caFile, pemOf("CERTIFICATE", p.caDER), 0o600)
+		trust := filepath.Join(dir, "host-trust.pem")
+		os.WriteFile(trust, pemOf("CERTIFICATE", p.foreignDER), 0o600)
+		os.Setenv("SSL_CERT_FILE", trust)
+		os.Setenv("SSL_CERT_DIR", filepath.Join(dir, "no-such-dir"))
+	})
 }
 
 // ---------------------------------------------------------------------------------------------------
@@ -113,6 +145,7 @@ type lifeClient struct {
 }
 
 type lifeRun struct {
+	oldpw     string
 	sessions  map[string]tls.ClientSessionCache
 	scheduled bool
 	stormSeq  int
@@ -168,12 +201,22 @@ func newLifeRun(cfg []string) *lifeRun {
 		case t == "plain":
 			lr.plain = freePort()
 			lr.srv.SetPort(lr.plain)
-		case t == "tls":
+		case t == "tls", t == "tlsfiles":
 			lr.tlsPort = freePort()
 			lr.srv.SetTLSPort(lr.tlsPort)
 			p := getPKI()
-			lr.srv.SetTLSConfig(&tls.Config{MinVersion: tls.VersionTLS12, Certificates: []tls.Certificate{p.serverCert}, ClientCAs: p.caPool,
-				ClientAuth: tls.RequireAndVerifyClientCert})
+			if t == "tlsfiles" {
+				p.ensureFiles()
+			}
+			if t == "tlsfiles" && p.certFile != "" {
+				// configured the way an application configures it: certificate, key and CA files (NewTLSConfigFrom)
+				lr.srv.SetTLSCertFile(p.certFile)
+				lr.srv.SetTLSKeyFile(p.keyFile)
+				lr.srv.SetTLSCaCertFile(p.caFile)
+			} else {
+				lr.srv.SetTLSConfig(&tls.Config{MinVersion: tls.VersionTLS12, Certificates: []tls.Certificate{p.serverCert}, ClientCAs: p.caPool,
+					ClientAuth: tls.RequireAndVerifyClientCert})
+			}
 		case strings.HasPrefix(t, "cn="):
 			lr.cn = t[3:]
 			lr.srv.AddAuthenticator(auth.NewCertificateAuthenticatorWith(auth.WithCommonName(lr.cn)))
@@ -402,6 +445,28 @@ func (lr *lifeRun) act(a string) string {
 			}
 		}
 		return res
+	case "setpw": // setpw:<new>: the application changes the required password (takes effect with the next Start)
+		lr.oldpw = lr.pw
+		lr.pw = f[1]
+		lr.srv.SetRequirePass(lr.pw)
+		return "ok"
+	case "pingold": // pingold:<p|t>: a client that still presents the previous password
+		c, err := lr.dial(f[1], "good")
+		if err != nil {
+			return "refused"
+		}
+		defer c.Close()
+		wrong := lr.oldpw
+		if wrong == "" {
+			wrong = "not-the-password"
+		}
+		if r := roundTrip(c, reqS("AUTH", wrong)); r == "+OK" {
+			return "accepted:" + roundTrip(c, reqS("PING"))
+		}
+		if r := roundTrip(c, reqS("PING")); r != "E" {
+			return "unauthenticated-served:" + r
+		}
+		return "auth-E"
 	case "ping": // ping:<p|t>[:cert]
 		cert := "good"
 		if len(f) > 2 {
